@@ -8,7 +8,7 @@ import logging
 from harness import ashlib, fullstack
 from harness.ashlib import hx
 
-FAILS = ["error", "rstack_poweron", "silent", "chatty", "lost_exc", "eof", "close"]
+FAILS = ["error", "rstack_poweron", "rstack_unknown", "silent", "chatty", "lost_exc", "eof", "close"]
 POINTS = ["idle", "inflight", "awaiting", "queued", "resetting", "abandoned"]
 
 
@@ -104,6 +104,9 @@ def scenario(n, fail, point, attached, batched, second=None, history=None):
                 cbs = pre + [(w.protocol.data_received, ashlib.spec_wire("E", code=0x51))]
             elif fail == "rstack_poweron":
                 cbs = pre + [(w.protocol.data_received, ashlib.spec_wire("K", code=0x02))]
+            elif fail == "rstack_unknown":
+                # the NCP reset for a reason it does not know (code 0x00): not the software reset the host may have asked for
+                cbs = pre + [(w.protocol.data_received, ashlib.spec_wire("K", code=0x00))]
             elif fail in ("silent", "chatty"):
                 w.ncp.silent = True
                 cbs = []
@@ -248,7 +251,7 @@ def cases(ctx):
     return cs
 
 
-EVENT_OF = {"error": "fail81", "rstack_poweron": "fail2", "silent": "fail81", "chatty": "fail81", "lost_exc": "lost", "eof": "lost"}
+EVENT_OF = {"error": "fail81", "rstack_poweron": "fail2", "rstack_unknown": "fail0", "silent": "fail81", "chatty": "fail81", "lost_exc": "lost", "eof": "lost"}
 
 
 def run(ctx):
@@ -297,7 +300,7 @@ def run(ctx):
                               f"requests={len(o['requests'])} after={o['after']} running={o['running_after']}", model[i])
         if i % 25 == 0:
             ctx.sample({"case": list(map(str, c)), "requests": len(o["requests"]), "results": {k: [v[0], round(v[1], 3)] for k, v in o.get("results", {}).items()}, "after": o.get("after")})
-    ctx.cov["rule"] = ("failure kinds {ERROR frame, power-on RSTACK, NCP stops acknowledging, NCP stops acknowledging but keeps sending callbacks every 0.3 s, connection lost with error, EOF, deliberate close} x workload points {idle, request unacknowledged, "
+    ctx.cov["rule"] = ("failure kinds {ERROR frame, power-on RSTACK, RSTACK with the unknown-reason code 0x00, NCP stops acknowledging, NCP stops acknowledging but keeps sending callbacks every 0.3 s, connection lost with error, EOF, deliberate close} x workload points {idle, request unacknowledged, "
                        "acknowledged but unanswered, three commands queued, reset in progress, request unacknowledged and abandoned by its caller after 4 s (no later probe)} x {application attached, not attached} x {failure alone, batched with an ACK in one loop iteration}, "
                        "NCP version 8 (4, 7, 8, 13, 14 thorough); plus: a first failure {ERROR, power-on RSTACK, silence} while no application is attached, then an application attaches and the NCP fails again "
                        "{ERROR, power-on RSTACK, EOF}: that failure must be reported; full real stack on the virtual clock")
